@@ -1093,6 +1093,12 @@ func (vm *VirtualMachine) importModule(ctx context.Context, name string) (*objec
 	if err := vm.eval(ctx); err != nil {
 		return nil, err
 	}
+	// The value of the module's last statement is not used: drop it, otherwise
+	// it would be carried over onto the importing code's stack
+	for vm.sp > baseSP {
+		vm.stack[vm.sp] = nil
+		vm.sp--
+	}
 	module.UseGlobals(code.Globals)
 	// Store the loaded module but ensure we don't modify the map during a clone
 	vm.cloneMutex.Lock()
